@@ -38,7 +38,9 @@ Definition I_Shr_prim (dbg : bool) (w : Z) (ty : amt_ty) (a : list Z) (v : Z) : 
 
 (* bnum-typed amounts (shift_self_impl): `u32::try_from(rhs)` + expect in BOTH build modes.
    The TryFrom<bnum> for u32 conversion is modelled here by its value-level contract
-   (Ok exactly when the denoted value fits u32) — that contract is property C13's theorem. *)
+   (Ok exactly when the denoted value fits u32) — that contract is property C13's theorem.
+   Proofs/GlueTieC17.v DERIVES it: the code regenerated from shift_self_impl! calls the C13 model of that conversion
+   (Convert.U_try_to_prim / I_try_to_uprim at 32 bits) and is proved equal to Shl_bnum / Shr_bnum below. *)
 Definition bnum_amt (signed : bool) (w : Z) (amt : list Z) : outcome Z :=
   let v := if signed then sval w amt else uval w amt in
   if (0 <=? v) && (v <=? u32_max) then Ret v else Panic.
